@@ -30,61 +30,72 @@ def sample_shapes(vectors, frac, seed):
     return keep
 
 
+class Family:
+    """The designs of one family generated, compiled and linked into a runner; `run` drives vectors (whose shapes
+    were given to the constructor) through the real generated code."""
+
+    def __init__(self, ctx, fam, vectors, per_design=40, label=None):
+        self.ctx, self.fam = ctx, fam
+        self.shapes, self.index = [], {}
+        for v in vectors:
+            k = gg.shape_key(v)
+            if k not in self.index:
+                self.index[k] = len(self.shapes)
+                self.shapes.append(gg.shape_of(v))
+        designs, where = gg.pack_designs(self.shapes, per_design)
+        pl = gg.Pipeline(ctx, "grpc-" + (label or fam))
+        # a design goa refuses or fails to generate takes all its methods down: find those designs first and give
+        # each of their methods a design of its own, so that the failure is attributed to one method shape
+        pl.generate(designs)
+        broken = {i for i in pl.failed if len(designs[i]["services"][0]["methods"]) > 1}
+        if broken:
+            n = len(designs)
+            designs, where = gg.isolate_designs(self.shapes, designs, where, broken)
+            ctx.log("%s: %d designs failed in eval/gen, their methods isolated in %d more designs" % (fam, len(broken), len(designs) - n))
+        pl.prepare(designs)
+        ctx.log("%s: generated and compiled %d designs" % (fam, len(designs)))
+        self.run_needed = fam != "wf"
+        self.bins = pl.build_runners(designs) if self.run_needed else {}
+        pl.designs = designs
+        self.pl, self.designs, self.where = pl, designs, where
+        ctx.log("%s: %d vectors, %d method shapes, %d designs (%d unusable), %d methods set aside as uncompilable" % (
+            fam, len(vectors), len(self.shapes), len(designs), len(pl.failed), len(pl.bad_methods)))
+
+    def run(self, vectors, rng=None, prefix="c"):
+        """Returns the cases: dict(id, v, design, method, accepted, gen, table, descriptorOK, events, obs, ...)."""
+        pl = self.pl
+        scen, meta, cases = {}, {}, []
+        for n, v in enumerate(vectors):
+            di, svc, gometh, mname = self.where[self.index[gg.shape_key(v)]]
+            evs = pl.events.get(di) or []
+            stage = {e["ev"]: e for e in evs}
+            accepted = stage.get("eval", {}).get("outcome") == "ok"
+            verdict = ((pl.first_verdicts if (di, mname) in pl.bad_methods else pl.verdicts).get(di) or {}).get(svc)
+            case = {"id": "%s%d" % (prefix, n), "v": v, "design": di, "method": gometh, "mname": mname, "accepted": accepted,
+                    "evalErrors": stage.get("eval", {}).get("errors"), "gen": stage.get("gen", {}).get("outcome"),
+                    "genDetail": (stage.get("gen", {}).get("detail") or "")[:400],
+                    "descriptorOK": bool(verdict and verdict.get("descriptorOK")), "descriptorError": (verdict or {}).get("descriptorError") or (verdict or {}).get("parseError"),
+                    "table": gg.method_table(verdict, gometh, mname), "events": None, "obs": None,
+                    "uncompilable": pl.bad_methods.get((di, mname)), "unusable": pl.failed.get(di)}
+            cases.append(case)
+            if self.run_needed and di in self.bins and (di, mname) not in pl.bad_methods:
+                sc, sent, rsent = gg.scenario_for(v, case["id"], "d%d/%s" % (di, svc), gometh, mname, rng)
+                scen.setdefault(di, []).append(sc)
+                case["sent"], case["rsent"] = sent, rsent
+                meta[case["id"]] = case
+        if self.run_needed:
+            events = pl.run_all(self.bins, scen)
+            for sid, case in meta.items():
+                if sid not in events:
+                    raise core.Infra("runner produced no observation for scenario %s" % sid)
+                case["events"] = events[sid]
+                case["obs"] = gg.project(case["v"], events[sid], case["mname"], case["sent"], case["rsent"])
+        return cases
+
+
 def run_family(ctx, fam, vectors, per_design=40, rng=None, label=None):
-    """Drive the vectors through real generated code. Returns (cases, pipeline). A case is
-    dict(id, v, design, method, accepted, gen, table, verdict_ok, events, obs)."""
-    shapes, index = [], {}
-    for v in vectors:
-        k = gg.shape_key(v)
-        if k not in index:
-            index[k] = len(shapes)
-            shapes.append(gg.shape_of(v))
-    designs, where = gg.pack_designs(shapes, per_design)
-    pl = gg.Pipeline(ctx, "grpc-" + (label or fam))
-    # a design goa refuses or fails to generate takes all its methods down: find those designs first and give
-    # each of their methods a design of its own, so that the failure is attributed to one method shape
-    pl.generate(designs)
-    broken = {i for i in pl.failed if len(designs[i]["services"][0]["methods"]) > 1}
-    if broken:
-        isolate = {si for si, w in where.items() if w[0] in broken}
-        ctx.log("%s: %d designs failed in eval/gen, isolating their %d methods" % (fam, len(broken), len(isolate)))
-        designs, where = gg.pack_designs(shapes, per_design, isolate)
-    pl.reset()
-    pl.prepare(designs)
-    run_needed = fam != "wf"
-    ctx.log("%s: generated and compiled %d designs" % (fam, len(designs)))
-    bins = pl.build_runners(designs) if run_needed else {}
-    ctx.log("%s: built %d runners" % (fam, len(bins)))
-    ctx.log("%s: %d vectors, %d method shapes, %d designs (%d unusable), %d methods set aside as uncompilable" % (
-        fam, len(vectors), len(shapes), len(designs), len(pl.failed), len(pl.bad_methods)))
-    scen, meta, cases = {}, {}, []
-    for n, v in enumerate(vectors):
-        di, svc, gometh, mname = where[index[gg.shape_key(v)]]
-        evs = pl.events.get(di) or []
-        stage = {e["ev"]: e for e in evs}
-        accepted = stage.get("eval", {}).get("outcome") == "ok"
-        verdict = ((pl.first_verdicts if (di, mname) in pl.bad_methods else pl.verdicts).get(di) or {}).get(svc)
-        case = {"id": "c%d" % n, "v": v, "design": di, "method": gometh, "mname": mname, "accepted": accepted,
-                "evalErrors": stage.get("eval", {}).get("errors"), "gen": stage.get("gen", {}).get("outcome"),
-                "genDetail": (stage.get("gen", {}).get("detail") or "")[:400],
-                "descriptorOK": bool(verdict and verdict.get("descriptorOK")), "descriptorError": (verdict or {}).get("descriptorError") or (verdict or {}).get("parseError"),
-                "table": gg.method_table(verdict, gometh, mname), "events": None, "obs": None,
-                "uncompilable": pl.bad_methods.get((di, mname)), "unusable": pl.failed.get(di)}
-        cases.append(case)
-        if run_needed and di in bins and (di, mname) not in pl.bad_methods:
-            sc, sent, rsent = gg.scenario_for(v, case["id"], "d%d/%s" % (di, svc), gometh, mname, rng)
-            scen.setdefault(di, []).append(sc)
-            case["sent"], case["rsent"] = sent, rsent
-            meta[case["id"]] = case
-    if run_needed:
-        events = pl.run_all(bins, scen)
-        for sid, case in meta.items():
-            if sid not in events:
-                raise core.Infra("runner produced no observation for scenario %s" % sid)
-            case["events"] = events[sid]
-            case["obs"] = gg.project(case["v"], events[sid], case["mname"], case["sent"], case["rsent"])
-    pl.designs = designs
-    return cases, pl
+    f = Family(ctx, fam, vectors, per_design, label)
+    return f.run(vectors, rng), f.pl
 
 
 def attr_tag(a):
